@@ -77,6 +77,12 @@ def replay(hist):
                 cm = pending.pop(0) if pending else fickling.check_safety()
                 cm.__enter__()
                 stack.append(cm)
+            elif op == "enter_t":        # a manager with an explicit threshold (below the flagged probe's severity)
+                from fickling.analysis import Severity
+                from fickling.context import FicklingContextManager
+                cm = FicklingContextManager(max_acceptable_severity=Severity.SUSPICIOUS)
+                cm.__enter__()
+                stack.append(cm)
             elif op == "exit":
                 stack.pop().__exit__(None, None, None)
             elif op == "exit_exc":
